@@ -278,6 +278,18 @@ func genC12(tier string, seed uint64, emit func(string)) {
 			}
 		}
 	}
+	// wide composites: MGET / HMGET with many keys (sizes around internal table sizes); the keys are set one by one,
+	// MSET/HMSET iterate a Go map whose order the scripted double cannot follow for hundreds of entries
+	for _, n := range []int{255, 256, 257, 1024, 1100} {
+		mget, hmget := bs("MGET"), bs("HMGET", "h")
+		for i := 0; i < n; i++ {
+			mget = append(mget, []byte(fmt.Sprintf("k%d", i)))
+			hmget = append(hmget, []byte(fmt.Sprintf("k%d", i)))
+		}
+		last := fmt.Sprintf("k%d", n-1)
+		emit(c12Line([][][]byte{bs("SET", "k0", "first"), bs("SET", last, "last"), bs("SET", "k7", ""), mget, bs("MGET", "k0", "nokey", last)}, ""))
+		emit(c12Line([][][]byte{bs("HSET", "h", "k0", "first"), bs("HSET", "h", last, "last"), hmget, bs("HLEN", "h"), bs("HKEYS", "h")}, ""))
+	}
 	// counters at the boundaries
 	for _, c := range []struct {
 		val  string
